@@ -50,6 +50,7 @@ class ScriptedRequests(object):
 
     def __init__(self):
         self.calls = []
+        self.request_index = 0
 
     def __getattr__(self, name):          # exceptions, codes, ...: the real module's
         import requests
@@ -61,6 +62,10 @@ class ScriptedRequests(object):
         R = lambda st, b: W.http_response(url, st, b)      # noqa: E731
         script, _, tail = url[len('http://slugs/S='):].partition('/users/')
         is_groups = tail.endswith('/groups')
+        if script.startswith('seq='):
+            # the directory's behaviour changes from one request of the connection to the next
+            steps = script[4:].split('|')
+            script = steps[min(self.request_index, len(steps) - 1)]
         if script.startswith('ok:'):
             groups = [g for g in script[3:].split(',') if g]
             return R(200, {'groups': groups} if is_groups else {})
@@ -243,6 +248,98 @@ def run_case(cert, tls_auth, plabel, settings, rname, version=(1, 2)):
         w.close()
 
 
+SEQUENCES = [('ok:g1', 'user404'), ('user404', 'ok:g1'), ('ok:g1', 'connerr1', 'ok:g2'), ('ok:g1', 'ok:'),
+             ('ok:g1,g2', 'groups404', 'ok:g1'), ('ok:g1', 'nonjson'), ('connerr2', 'ok:g2', 'user500'),
+             ('ok:g1', 'ok:g2', 'ok:g1')]
+_CRED = W.cobjects.Credential(
+    credential_type=enums.CredentialType.USERNAME_AND_PASSWORD,
+    credential_value=W.cobjects.UsernamePasswordCredential(username='mallory', password='pw'))
+
+
+def run_sequence(cns, scripts, with_creds, rname):
+    """Several requests on ONE connection while the directory's answer changes between them: every
+    request is judged by the answer the directory gives for THAT request. Returns (problems, sig)."""
+    w = base().clone()
+    stub = ScriptedRequests()
+    old = slugs_mod.requests
+    slugs_mod.requests = stub
+    problems, sig = [], []
+    try:
+        calls = []
+        real = w.engine.process_request
+
+        def spy(request, credential=None):
+            calls.append(credential)
+            return real(request, credential)
+        w.engine.process_request = spy
+        settings = [slugs_block('seq=' + '|'.join(scripts))]
+        conn = W.FakeConnection(W.make_cert(cns, 'client'))
+        sess = W.session_mod.KmipSession(w.engine, conn, ('127.0.0.1', 1), name='c17s',
+                                         enable_tls_client_auth=True, auth_settings=settings)
+        for k, script in enumerate(scripts):
+            stub.request_index = k
+            hdr = {'credentials': [_CRED]} if with_creds else {}
+            data = W.encode_request(W.build_request((1, 2), requests_menu()[rname](), **hdr))
+            W.CLOCK.now = W.T0 + 5 + k
+            before, n_calls, n_sent = w.raw_key(), len(calls), len(conn.sent)
+            conn.feed(data)
+            try:
+                sess._handle_message_loop()
+            except Exception as e:    # noqa
+                problems.append(("session-raises", "request %d: %s: %s" % (k + 1, type(e).__name__, e)))
+            mine = calls[n_calls:]
+            ok, groups = vouch(script, cns)
+            if len(conn.sent) != n_sent + 1:
+                problems.append(("responses", "request %d: %d responses" % (k + 1, len(conn.sent) - n_sent)))
+                continue
+            resp = W.Resp(conn.sent[-1])
+            sig.append((bool(ok), len(mine)))
+            if not ok:
+                if mine:
+                    problems.append(("engine-entered-without-identity",
+                                     "request %d of the connection (directory answers '%s' now, earlier "
+                                     "answers %s): process_request was called with %r" % (
+                                         k + 1, script, list(scripts[:k]), mine)))
+                if resp.items[0].ok() or resp.items[0].reason != RR.AUTHENTICATION_NOT_SUCCESSFUL.value:
+                    problems.append(("wrong-answer", "request %d: answer %s" % (k + 1, resp.brief())))
+                if w.raw_key() != before:
+                    problems.append(("store-changed", "request %d changed the store" % (k + 1)))
+            else:
+                got = [(c[0], list(c[1]) if c[1] is not None else None) if c else c for c in mine]
+                if got != [(cns[0], groups)]:
+                    problems.append(("wrong-identity", "request %d of the connection (directory answers '%s' "
+                                     "now, earlier answers %s): engine received %r, established identity is "
+                                     "%r" % (k + 1, script, list(scripts[:k]), got, (cns[0], groups))))
+        return problems, tuple(sig)
+    finally:
+        slugs_mod.requests = old
+        w.close()
+
+
+def _seq_worker(task):
+    part = Part()
+    outs = set()
+    for cns, scripts, with_creds, rname in task:
+        problems, sig = run_sequence(cns, scripts, with_creds, rname)
+        part.count('cases')
+        part.count('sequence_cases')
+        outs.add(('sequence', sig, with_creds))
+        for key, what in problems:
+            part.violation("%s|sequence:%s|creds=%s" % (key, '+'.join(scripts), with_creds),
+                           "one connection of %s, directory answers %s, request %s%s: %s" % (
+                               cns[0], list(scripts), rname, ' with header credentials' if with_creds else '',
+                               what),
+                           {'sequence': list(scripts), 'cns': list(cns), 'creds': with_creds, 'request': rname})
+    out = part.as_dict()
+    out['out'] = sorted(outs, key=repr)
+    return out
+
+
+def sequence_cases(tier):
+    return [(cns, sc, cr, r) for cns in (('alice',), ('bob',)) for sc in SEQUENCES for cr in (False, True)
+            for r in (['create', 'get'] if tier == 'quick' else list(requests_menu()))]
+
+
 def _worker(task):
     cases, = task
     part = Part()
@@ -282,6 +379,11 @@ def run(tier, seed):
     for part in pmap(_worker, [(cases[i::n],) for i in range(n)]):
         outs.update(repr(o) for o in part.pop('out', []))
         rep.merge(part)
+    seqs = sequence_cases(tier)
+    for part in pmap(_seq_worker, [seqs[i::8] for i in range(8)]):
+        outs.update(repr(o) for o in part.pop('out', []))
+        rep.merge(part)
+    cases = cases + seqs
     c = rep.counters.get('cases', 0)
     est = len([o for o in outs if ", True, 1)" in o])
     if c != len(cases) or est < 10 or len(outs) < 60:
@@ -292,7 +394,9 @@ def run(tier, seed):
         rule="complete product certificate (absent / 0,1,2 common names x EKU absent, serverAuth, "
              "clientAuth) x enable_tls_client_auth x plugin configuration (none, empty, disabled, "
              "unsupported plugin, one SLUGS block with each of 11 scripted HTTP behaviours, two blocks "
-             "in all orders, mixes of enabled/disabled/unsupported blocks) x request; "
+             "in all orders, mixes of enabled/disabled/unsupported blocks) x request; plus 8 sequences of 2-3 "
+             "requests on ONE connection while the directory's answer changes between them (with and "
+             "without Username/Password credentials in the request header); "
              "distinct_nontrivial = distinct (certificate, flag, configuration kind, identity "
              "established?, engine calls) classes",
         certificates=len(CERTS), plugin_configurations=len(plugin_configs(tier)),
@@ -305,6 +409,9 @@ def run(tier, seed):
 
 
 def replay(doc):
+    if 'sequence' in doc:
+        problems, sig = run_sequence(tuple(doc['cns']), tuple(doc['sequence']), doc['creds'], doc['request'])
+        return bool(problems), '\n'.join("%s: %s" % p for p in problems) or 'no violation'
     cert = [c for c in CERTS if c[0] == doc['cert']][0]
     settings = dict(plugin_configs('thorough'))[doc['plugins']]
     problems, sig = run_case(cert, doc['tls'], doc['plugins'], settings, doc['request'])
